@@ -288,17 +288,18 @@ def check_family_tree(doc, outdir, tree):
     """Larger IR documents (no TLC case): the tree against the module-trie rules of spec/Modules.tla, read off the tree itself -
     per directory the `pub use` lines follow IR order (types, errors, services), `pub mod` repeats them and ends with the
     sub-directories in byte order; every declared module has a file or directory.  Returns drift messages."""
+    norm = lambda x: x.lower().replace("_", "")       # the generator re-cases names (IOError -> IoError, Self -> Self_)
     order = {}
     n = 0
     for t in doc.get("types", []):
         body = t[t["type"]]
-        order[body["typeName"]["name"]] = n
+        order[norm(body["typeName"]["name"])] = n
         n += 1
     for e in doc.get("errors", []):
-        order[e["errorName"]["name"]] = n
+        order[norm(e["errorName"]["name"])] = n
         n += 1
     for sv in doc.get("services", []):
-        order[sv["serviceName"]["name"] + "Client"] = n
+        order[norm(sv["serviceName"]["name"] + "Client")] = n
         n += 1
     drift = []
     for path in sorted(p for p, h in tree.items() if h != "dir" and os.path.basename(p) in ("mod.rs", "lib.rs")):
@@ -312,7 +313,7 @@ def check_family_tree(doc, outdir, tree):
             first = names.split(",")[0].strip()
             if first.startswith("r#"):
                 first = first[2:]
-            idx.append(order.get(first, order.get(first.rstrip("_"), -1)))
+            idx.append(order.get(norm(first), -1))
         if any(i < 0 for i in idx):
             drift.append("%s: re-exported name not in the IR (%s)" % (path, [u[1].split(",")[0].strip() for u, i in zip(uses, idx) if i < 0][:3]))
         elif idx != sorted(idx):
@@ -385,8 +386,10 @@ def family_docs():
             docs[name] = json.load(open(path))
     ext = c03gen.services_ir()
     ext["extensions"] = {"recommended-product-dependencies": [
-        {"product-group": "com.palantir.z", "product-name": "zeta", "minimum-version": "1.0.0", "maximum-version": "1.x.x", "recommended-version": "1.2.0", "optional": False},
-        {"product-group": "com.palantir.a", "product-name": "alpha", "minimum-version": "0.1.0", "maximum-version": "0.x.x"}], "zzz": {"b": 1, "a": [2, {"d": 1, "c": 2}]}}
+        {"product-group": "com.palantir.%s" % g, "product-name": n, "minimum-version": "1.%d.0" % i, "maximum-version": "1.x.x",
+         "recommended-version": "1.%d.1" % i, "optional": i % 2 == 0}
+        for i, (g, n) in enumerate([("z", "zeta"), ("a", "alpha"), ("m", "mid"), ("a", "beta"), ("q", "zeta"), ("b", "alpha"), ("k", "kappa")])],
+        "zzz": {"b": 1, "a": [2, {"d": 1, "c": 2}]}}
     docs["extensions"] = ext
     return docs
 
